@@ -512,6 +512,10 @@ func (e *Enc) LST(b []byte, imports []Import, symbols []Slot, appendMode bool) [
 				mb := uintBytes(uint64(imp.MaxID))
 				s = append(s, 0x20|byte(len(mb)))
 				s = append(s, mb...)
+			} else if e.LSTOpenContent && e.C.Intn(3) == 0 {
+				// max_id present but undefined: null.int, null, -1
+				s = append(s, 0x88)
+				s = append(s, [][]byte{{0x2F}, {0x0F}, {0x31, 0x01}}[e.C.Intn(3)]...)
 			}
 			if e.LSTOpenContent && e.C.Intn(3) == 0 {
 				s = append(s, [][]byte{{0x80, 0x21, 0x03}, {0x87, 0xB0}}[e.C.Intn(2)]...)
